@@ -102,6 +102,25 @@ func (migEngine) Generate(rng *rand.Rand, tier string) []core.Case {
 			}
 		}
 	}
+	// two upgrades sharing one table slice in one process
+	for i := 0; i < n/10+20; i++ {
+		k := 1 + rng.Intn(6)
+		var vs []string
+		used := map[int]bool{}
+		for j := 0; j < k; j++ {
+			num := 1 + rng.Intn(k+2)
+			for t := 0; used[num] && t < 8; t++ {
+				num = 1 + rng.Intn(k+3)
+			}
+			used[num] = true
+			if rng.Intn(5) == 0 {
+				vs = append(vs, fmt.Sprintf("%d:nil", num))
+			} else {
+				vs = append(vs, fmt.Sprintf("%d:%d", num, 100+j))
+			}
+		}
+		add(fmt.Sprintf("up2 cur1=%d cur2=%d vs=%s", rng.Intn(k+3), rng.Intn(k+3), strings.Join(vs, ",")))
+	}
 	for i := 0; i < n; i++ {
 		k := rng.Intn(9)
 		if rng.Intn(20) == 0 {
@@ -203,6 +222,125 @@ func (m *migMgr) SetVersion(b walletdb.ReadWriteBucket, v uint32) error {
 	}
 	*m.trace = append(*m.trace, fmt.Sprintf("s%d", v))
 	return b.Put([]byte("version"), []byte(strconv.Itoa(int(v))))
+}
+
+// up2: TWO upgrades in one process whose managers return the SAME shared version table (as the package-level tables
+// of wtxmgr / waddrmgr are shared by every wallet opened in a process). Each upgrade must behave as if it were alone.
+func (r *migRunner) up2(kv map[string]string) (string, string) {
+	type decl struct {
+		n, id int
+		nil_  bool
+	}
+	var decls []decl
+	var shared []migration.Version
+	var calls *[]string
+	for _, t := range core.CSV(kv["vs"]) {
+		p := strings.Split(t, ":")
+		if len(p) != 2 {
+			return "bad-op", ""
+		}
+		n, err := strconv.Atoi(p[0])
+		if err != nil {
+			return "bad-op", ""
+		}
+		if p[1] == "nil" {
+			shared = append(shared, migration.Version{Number: uint32(n)})
+			decls = append(decls, decl{n, 0, true})
+			continue
+		}
+		id, err := strconv.Atoi(p[1])
+		if err != nil {
+			return "bad-op", ""
+		}
+		decls = append(decls, decl{n, id, false})
+		n2, id2 := n, id
+		shared = append(shared, migration.Version{Number: uint32(n), Migration: func(b walletdb.ReadWriteBucket) error {
+			*calls = append(*calls, fmt.Sprintf("a%d:%d", n2, id2))
+			return nil
+		}})
+	}
+	var out, viol []string
+	for i, key := range []string{"cur1", "cur2"} {
+		cur, err := strconv.Atoi(kv[key])
+		if err != nil {
+			return "bad-op", ""
+		}
+		r.n++
+		bucket := []byte(fmt.Sprintf("ns%d", r.n))
+		var tr []string
+		calls = &tr
+		var upErr error
+		_ = walletdb.Update(r.db, func(tx walletdb.ReadWriteTx) error {
+			b, err := tx.CreateTopLevelBucket(bucket)
+			if err != nil {
+				return err
+			}
+			if err := b.Put([]byte("version"), []byte(strconv.Itoa(cur))); err != nil {
+				return err
+			}
+			m := &migMgr{ns: b, vs: shared, trace: &tr} // the SAME slice for both upgrades
+			upErr = migration.Upgrade(m)
+			return upErr
+		})
+		// expected from the DECLARED table
+		maxNum := 0
+		var want []string
+		type pn struct{ n, id int }
+		var pend []pn
+		for _, d := range decls {
+			if d.n > maxNum {
+				maxNum = d.n
+			}
+			if !d.nil_ && d.n > cur {
+				pend = append(pend, pn{d.n, d.id})
+			}
+		}
+		sort.Slice(pend, func(a, b int) bool {
+			if pend[a].n != pend[b].n {
+				return pend[a].n < pend[b].n
+			}
+			return pend[a].id < pend[b].id
+		})
+		if cur < maxNum {
+			for _, p := range pend {
+				want = append(want, fmt.Sprintf("a%d:%d", p.n, p.id))
+			}
+			want = append(want, fmt.Sprintf("s%d", maxNum))
+		}
+		// canonicalise ties like the single-upgrade op does (applied events sorted by number,id; rest after)
+		var app, rest []string
+		for _, e := range tr {
+			if strings.HasPrefix(e, "a") {
+				app = append(app, e)
+			} else {
+				rest = append(rest, e)
+			}
+		}
+		sort.SliceStable(app, func(a, b int) bool {
+			var n1, i1, n2, i2 int
+			fmt.Sscanf(app[a], "a%d:%d", &n1, &i1)
+			fmt.Sscanf(app[b], "a%d:%d", &n2, &i2)
+			if n1 != n2 {
+				return n1 < n2
+			}
+			return i1 < i2
+		})
+		got := append(app, rest...)
+		es := "none"
+		if upErr != nil {
+			if errors.Is(upErr, migration.ErrReversion) {
+				es = "reversion"
+			} else {
+				es = "other"
+			}
+		}
+		out = append(out, fmt.Sprintf("err%d=%s t%d=%s", i+1, es, i+1, strings.Join(got, ",")))
+		if cur <= maxNum && strings.Join(got, ",") != strings.Join(want, ",") {
+			viol = append(viol, fmt.Sprintf("C19 key=Upgrade.shared-table-second-upgrade: upgrade #%d from version %d ran [%s], the declared table requires [%s]",
+				i+1, cur, strings.Join(tr, ","), strings.Join(want, ",")))
+		}
+	}
+	return strings.Join(out, " "), strings.Join(viol, "; ")
 }
 
 func realLatest() (int, int) {
@@ -323,6 +461,9 @@ func (r *migRunner) Exec(op string) (string, string) {
 	name, kv := core.KV(op)
 	if name == "wopen" {
 		return r.wopen(kv)
+	}
+	if name == "up2" {
+		return r.up2(kv)
 	}
 	if name != "up" {
 		return "bad-op", ""
